@@ -3101,6 +3101,17 @@ def update_working_tree(
             path = change.old.path
             if not validate_path(path, validate_path_element):
                 continue
+            # Never delete through a symlinked leading directory: the entry
+            # that is actually there belongs to whatever the link points at
+            # (possibly outside the work tree or inside .git).
+            try:
+                verify_leading_dirs(path, [], repo_path)
+            except InvalidPathError:
+                try:
+                    del index[path]
+                except KeyError:
+                    pass
+                continue
 
             full_path = _tree_to_fs_path(repo_path, path, tree_encoding)
             try:
